@@ -202,6 +202,34 @@ static inline TextFamily make_LA2(unsigned n) {
   return f;
 }
 
+// LP: every ordered PAIR of leaf spellings in one document (what the parser does with one leaf - an error it
+// records, a flag it sets, scratch it fills - must not leak into how it treats a later one)
+static inline TextFamily make_LP() {
+  TextFamily f;
+  const uint64_t nleaf = leaf_alphabet().size();
+  f.meta.name = "LP_leaf_pairs";
+  f.meta.count = nleaf * nleaf * 6;
+  f.meta.group = "LP";
+  f.meta.rule = "all ordered pairs (L1,L2) of the " + std::to_string(nleaf) + " leaf spellings (numbers incl. overflowing / subnormal / over-long / malformed, literals, strings incl. malformed) in 6 two-leaf documents: [L1,L2], {\"a\":L1,\"b\":L2}, [L1,[L2]], [[L1],L2], [L1,true,L2], {\"a\":[L1],\"b\":{\"c\":L2}}";
+  f.meta.chunk = 2048;
+  f.gen = [nleaf](uint64_t idx, std::string& out) {
+    unsigned shape = (unsigned)(idx % 6);
+    idx /= 6;
+    const std::string& b = leaf_alphabet()[idx % nleaf];
+    const std::string& a = leaf_alphabet()[idx / nleaf];
+    switch (shape) {
+      case 0: out = "[" + a + "," + b + "]"; break;
+      case 1: out = "{\"a\":" + a + ",\"b\":" + b + "}"; break;
+      case 2: out = "[" + a + ",[" + b + "]]"; break;
+      case 3: out = "[[" + a + "]," + b + "]"; break;
+      case 4: out = "[" + a + ",true," + b + "]"; break;
+      default: out = "{\"a\":[" + a + "],\"b\":{\"c\":" + b + "}}"; break;
+    }
+    return true;
+  };
+  return f;
+}
+
 // Base set for whitespace / mutation families: token lists of all *valid* LA
 // texts (no whitespace token) with <= n tokens, plus reduced leaf variants.
 struct BaseText {
